@@ -5,6 +5,7 @@ import (
 	"errors"
 	"fmt"
 	"os"
+	"strings"
 	"sync"
 	"sync/atomic"
 	"testing"
@@ -88,7 +89,12 @@ func newTimed(ctx context.Context, p *txProbe, timeout time.Duration) *txHandle 
 // verdict checks the end-of-history invariants of C18.
 func (p *txProbe) verdict(c *rt.Case, h *txHandle, ops string, mode string) {
 	if atomic.LoadInt32(&p.doneSeen) == 0 {
+		c.R.Observe("transaction outcome", fmt.Sprintf("%s %s: not completed, %d retry callbacks", h.kind, strings.SplitN(mode, "-", 2)[0], atomic.LoadInt32(&p.callbacks)))
 		return
+	}
+	if eb, ok := p.errAtDone.Load().(errBox); ok {
+		// which of the competing completions won, and after how many retries
+		c.R.Observe("transaction outcome", fmt.Sprintf("%s %s: Err=%v after %d retry callbacks", h.kind, strings.SplitN(mode, "-", 2)[0], eb.e, atomic.LoadInt32(&p.callbacks)))
 	}
 	f := atomic.LoadInt32(&p.finally)
 	if f != 1 {
